@@ -1121,9 +1121,34 @@ class CFG:
     #  * with inline_methods: private, non-overridden methods of the same class
     def _inline_target(self, e: ast.Call, awaited: bool, _depth: int = 0, any_module_helper: bool = False):
         f = e.func
+        ic0 = next((c for c in reversed(self.ctx) if c.kind == 'inline'), None)
+        if any(isinstance(a, ast.Starred) for a in e.args) and ic0 is not None and not any(k.arg is None for k in e.keywords):
+            # `hook(*args)` inside an inlined `def helper(hook, *args)`: the caller's extra arguments, which travel as a
+            # tuple display, are spread again
+            flat: List[ast.expr] = []
+            for a_ in e.args:
+                if not isinstance(a_, ast.Starred):
+                    flat.append(a_)
+                    continue
+                pack = None
+                if isinstance(a_.value, ast.Name):
+                    orig_ = getattr(ic0, 'renamed', {}).get(a_.value.id, a_.value.id)
+                    va_ = getattr(ic0, 'scope', None)
+                    va_ = va_.node.args.vararg if va_ is not None else None
+                    cand_ = getattr(ic0, 'binding', {}).get(orig_)
+                    if va_ is not None and va_.arg == orig_ and isinstance(cand_, ast.Tuple) and getattr(cand_, '_vararg_pack', False) \
+                            and not any(isinstance(x, ast.Name) and x.id == orig_ and isinstance(x.ctx, (ast.Store, ast.Del))
+                                        for x in ast.walk(ic0.scope.node)):
+                        pack = cand_
+                if pack is None:
+                    return None
+                flat.extend(pack.elts)
+            e2_ = ast.Call(func=e.func, args=flat, keywords=list(e.keywords))
+            ast.copy_location(e2_, e)
+            e2_._parent = getattr(e, '_parent', None)  # type: ignore[attr-defined]
+            e = e2_
         if any(isinstance(a, ast.Starred) for a in e.args) or any(k.arg is None for k in e.keywords):
             return None
-        ic0 = next((c for c in reversed(self.ctx) if c.kind == 'inline'), None)
         if isinstance(f, ast.Name) and self._inlining and _depth < 2 and \
                 (getattr(ic0, 'renamed', {}).get(f.id, f.id) if ic0 is not None else f.id) in self.cur_scope.params:
             # a parameter of the helper being inlined that the caller bound to one of its own functions
@@ -1143,7 +1168,8 @@ class CFG:
                     k_ += 1
                 else:
                     break
-            if isinstance(bound, ast.Name) and host is not None:
+            if (isinstance(bound, ast.Name) or (isinstance(bound, ast.Attribute) and isinstance(bound.value, ast.Name)
+                                                and bound.value.id == 'self')) and host is not None:
                 synth = ast.Call(func=bound, args=list(e.args), keywords=list(e.keywords))
                 ast.copy_location(synth, e)
                 synth._parent = getattr(e, '_parent', None)  # type: ignore[attr-defined]
@@ -1233,11 +1259,23 @@ class CFG:
         params = [x.arg for x in a.args][1 if skip_self else 0:]
         if a.vararg:
             # `def helper(self, *args)`: the extra positional arguments travel as a tuple
-            if e.keywords or a.kwonlyargs or len(e.args) < len(params):
+            if len(e.args) < len(params):
+                return None
+            kwo: Dict[str, ast.expr] = {}
+            for prm, d in zip(a.kwonlyargs, a.kw_defaults):
+                if d is not None:
+                    kwo[prm.arg] = d
+            konly = [x.arg for x in a.kwonlyargs]
+            for k in e.keywords:
+                if k.arg not in konly:
+                    return None
+                kwo[k.arg] = k.value
+            if any(x not in kwo for x in konly):
                 return None
             extra = ast.Tuple(elts=list(e.args[len(params):]), ctx=ast.Load())
             ast.copy_location(extra, e)
-            return t, [(prm, arg) for prm, arg in zip(params, e.args)] + [(a.vararg.arg, extra)]
+            extra._vararg_pack = True  # type: ignore[attr-defined]
+            return t, [(prm, arg) for prm, arg in zip(params, e.args)] + [(a.vararg.arg, extra)] + [(x, kwo[x]) for x in konly]
         defaults: Dict[str, ast.expr] = {}
         for prm, d in zip(reversed([x.arg for x in a.args]), reversed(a.defaults)):
             defaults[prm] = d
